@@ -77,6 +77,7 @@ pub fn child(args: &[String]) -> i32 {
     match args.first().map(String::as_str) {
         Some("c11") => c11::child(&args[1..]),
         Some("c20utc") => c20::child_utc(),
+        Some("c10errchan") => c10::child_errchan(&args[1..]),
         _ => 2,
     }
 }
